@@ -994,7 +994,8 @@ func cloneTree(t map[string]string) map[string]string {
 	return n
 }
 
-var histDirs = []string{".", "pkg/a", "pkg/b", "cmd/x", "internal/deep/c"}
+// "git" and "idea/x": eligible directories whose names are default ignore entries without the dot
+var histDirs = []string{".", "pkg/a", "pkg/b", "cmd/x", "internal/deep/c", "git", "idea/x"}
 
 // mutate applies one commit's worth of edits to the tree. own restricts the files touched
 // (so that the two sides of a pull request rarely conflict); region as in edit.
@@ -1094,6 +1095,8 @@ func buildHistory(dir string, r *rand.Rand, count func(string)) *histRepo {
 	tree["pkg/b/testdata/t.go"] = g.file(5)
 	tree["pkg/b/testdata_loader.go"] = g.file(7)
 	tree["vendorutil/u.go"] = g.file(6)
+	// a generated asset: one source line longer than 64 KiB above lines that get edited
+	tree["pkg/a/asset.go"] = "var asset = \"" + strings.Repeat("0123456789abcdef", 4400) + "\"\n" + g.file(9)
 	all := func(string) bool { return true }
 	const t0 = 1700000000
 	topos := []string{"linear", "linear", "linear-same-second", "pr-feature-older", "pr-feature-older", "pr-feature-newer", "pr-same-second", "pr-forked-after-old", "diverged"}
